@@ -21,7 +21,7 @@
 EXTENDS Integers, Sequences, TLC, Json
 
 CONSTANTS
-    Files,               \* set of files: [name, mode, len, segs, item, count, gz, bcf, need], lengths of REAL files
+    Files,               \* set of files: [name, mode, len, segs, item, count, gz, bcf, need, valid], lengths of REAL files
     Schedules(_),        \* file -> set of <<first chunk, later-chunk policy (0 = the rest), failure offset (-1 = none)>>
     AB_ShortReadIsEof,   \* sabotage: read_exact done with a single read
     AB_DetectFromFirstChunk, \* as built: detection looks only at what the first read returned
@@ -143,7 +143,9 @@ CreateDrain ==
     /\ Running /\ file.mode = "create" /\ pc = "drain" /\ buffered = 0
     /\ IF FailsNow THEN result' = [st |-> "err", why |-> "io"] /\ UNCHANGED <<delivered, consumed, pc>>
        ELSE LET n == NextChunk IN
-            IF n = 0 THEN result' = [st |-> "ok", items |-> file.count] /\ UNCHANGED <<delivered, consumed, pc>>
+            IF n = 0 THEN result' = (IF file.valid THEN [st |-> "ok", items |-> file.count]
+                                               ELSE [st |-> "err", why |-> "truncated_container"])   \* the stream ends inside a block / record
+                          /\ UNCHANGED <<delivered, consumed, pc>>
             ELSE delivered' = delivered + n /\ consumed' = consumed + n /\ pc' = pc /\ result' = result
     /\ nreads' = nreads + 1
     /\ UNCHANGED <<file, first, later, failAt, buffered, items, detected>>
@@ -200,7 +202,7 @@ Expected ==
                   ELSE IF (file.len - HeaderLen) % file.item # 0 THEN [ok |-> FALSE, items |-> 0]
                   ELSE IF (file.len - HeaderLen) \div file.item # file.count THEN [ok |-> FALSE, items |-> 0]
                   ELSE [ok |-> TRUE, items |-> file.count]
-           [] file.mode = "create" -> IF file.len = 0 THEN [ok |-> FALSE, items |-> 0] ELSE [ok |-> TRUE, items |-> file.count]
+           [] file.mode = "create" -> IF file.len = 0 \/ ~file.valid THEN [ok |-> FALSE, items |-> 0] ELSE [ok |-> TRUE, items |-> file.count]
            [] file.mode = "write" -> [ok |-> TRUE, items |-> Total]
 
 ScheduleIndependent ==
